@@ -238,5 +238,13 @@ def run(ctx, F):
             if "{closure" in d and _re.search(r"\('param', [23], ", kt) and "try_fold" in "".join(mir.callee_name(t2) or "" for _, t2 in prog.bodies[b.raw["parent"]].calls() if b.raw.get("parent") in prog.bodies):
                 ctx.ok("F2-duplicate-checked", key, "entries of an existing argument map are copied in a fold (keys unique by construction)")
                 continue
+            # the same copy written as a `for` loop: the key is the (cloned) key yielded by iterating an existing
+            # OrderMap, inserted into a map created empty in this function
+            recv = repr(S.operand(b, t["args"][0]))
+            fresh = "OrderMap<K, V>>::new'" in recv or _re.match(r"^\('agg', 'ordermap::OrderMap::OrderMap', \(\('call', '<std::vec::Vec<T>>::new', \(\)\),\)\)$", recv) is not None
+            from_map = "Iterator>::next" in kt and (_re.search(r"OrderMap<K, V>>::(iter|keys)'", kt) is not None or _re.search(r"\('param', \d+, \('\.named'", kt) is not None)
+            if fresh and from_map:
+                ctx.ok("F2-duplicate-checked", key, "entries of an existing argument map are copied into a fresh map (keys unique by construction)")
+                continue
             ctx.fail("F2-duplicate-checked", key, f"the value displaced by this insert into an argument-name map is discarded: a duplicated argument replaces the earlier one instead of raising `Duplicate argument`", where=b.where(bi))
     ctx.floor("inserts into argument-name maps", n_ins, 4)
